@@ -833,7 +833,10 @@ struct RcSim
         if (!ext && fabsl(oh - wh) > th) return c.fail("difference-equation-violated", "a_hpf_iter", "high-pass output %.17g, a*(prev + x - prev_x) = %.17Lg", oh, wh);
         if (hp->input != x) return c.fail("difference-equation-violated", "a_hpf_iter", "previous-input cache not updated");
         // convex combination stays within the range of the values fed so far (and the initial zero)
-        double const slack = 4 * ulp_of(std::max(std::fabs(lo), std::fabs(hi)));
+        // rounding: 1 - alpha is itself rounded, so the two weights may add up to 1 + d with |d| <= one unit roundoff; held at
+        // a constant input x for long enough the recurrence then settles at x * alpha / (alpha - d), i.e. up to about
+        // (unit roundoff) / alpha beyond the hull in relative terms, on top of the few roundings of a single step
+        double const slack = (4 + (alpha > 0 ? 8 / alpha : 0)) * ulp_of(std::max(std::fabs(lo), std::fabs(hi)));
         if (ol < lo - slack || ol > hi + slack) return c.fail("lowpass-left-input-range", "a_lpf_iter", "output %.17g outside [%.17g, %.17g] of the values fed so far", ol, lo, hi);
         c.obs(bits_of(ol)); c.obs(bits_of(oh));
         { int e1 = 0, e2 = 0; std::frexp(ol, &e1); std::frexp(oh, &e2); c.st.state(fnv_mix(fnv_mix(fnv_mix(FNV0, (uint64_t)(int64_t)(alpha * 16)), (uint64_t)(e1 + 2000) * 4 + (ol > 0) * 2 + (oh > 0)), (uint64_t)(e2 + 2000) * 32 + (since_reset > 31 ? 31 : since_reset))); }
